@@ -3,6 +3,8 @@ package rules
 import (
 	"fmt"
 	"go/ast"
+	"go/constant"
+	"go/token"
 	"go/types"
 	"regexp"
 	"sort"
@@ -20,13 +22,15 @@ func init() {
 			"(R1) index consistency and coverage: every expression is assigned the index of the type parameter it belongs to by derivation (type *Tk; ids[c]/components[c] with constant c; a field by what it is initialised from; a local by its initialiser); no conversion or assignment mixes two indices, and every function that assigns one member of a per-parameter field family assigns all of them; " +
 			"(R2) delegation: every typed structural method passes the type's whole id list (and its remove list) to the shared internal operation, never a sub-slice or another field; " +
 			"(R3) arity uniformity: for each family and method the normalised statement skeleton is identical across all arities ≥ 1, and the statements of the arity-0 variant that do not concern components occur in the same order in the others; (R4) the generated arities are those the documentation states (Map1–12, Filter0–8, Query0–8, Exchange1–8, Observer1–4). " +
-			"Not decided: equality of effects of the typed and the ID-based path for every history.",
+			"(R5) relation arguments are inputs: no function writes through a parameter or receiver that holds the caller's list of Relation values (the component id of a `Rel[C]` relation is resolved on a copy, never cached in the caller's list). (R6) a slice field whose element addresses are kept in fields, elements or literals (the per-component storages that typed objects point into) is allocated once with a constant capacity of at least the component limit and only appended to, so that it never reallocates. Not decided: equality of effects of the typed and the ID-based path for every history.",
 		TrustedBase: []string{"go/types", "naming convention of generated per-parameter fields (family name + parameter letter), checked against how the constructors initialise them"},
 		Rules: []Rule{
 			{ID: "C14/R1", Run: c14r1, Min: 1},
 			{ID: "C14/R2", Run: c14r2, Min: 1},
 			{ID: "C14/R3", Run: c14r3, Min: 1},
 			{ID: "C14/R4", Run: c14r4, Min: 1},
+			{ID: "C14/R5", Run: c14r5, Min: 1},
+			{ID: "C14/R6", Run: c14r6, Min: 1},
 		},
 	})
 }
@@ -754,3 +758,190 @@ func c14r4(c *core.Ctx) {
 		}
 	}
 }
+
+// c14r5: relation arguments are inputs. A list of Relation values handed in by the caller (a parameter or receiver
+// whose type is a slice of Relation) is never written through: resolving `Rel[C]` to a component id happens on a copy.
+// A relation list is world-independent; caching the id looked up in one world inside the caller's list makes a later
+// use of the same list with another world (or registry order) address a different component.
+func c14r5(c *core.Ctx) {
+	m := c.M
+	isRelList := func(t types.Type) bool {
+		sl, ok := t.Underlying().(*types.Slice)
+		return ok && core.NamedName(sl.Elem()) == "Relation"
+	}
+	n := 0
+	for _, f := range m.Funcs {
+		if f.Sig == nil {
+			continue
+		}
+		var lists []int
+		if rv := f.Sig.Recv(); rv != nil && isRelList(rv.Type()) {
+			lists = append(lists, -1)
+		}
+		for i := 0; i < f.Sig.Params().Len(); i++ {
+			if isRelList(f.Sig.Params().At(i).Type()) {
+				lists = append(lists, i)
+			}
+		}
+		if len(lists) == 0 {
+			continue
+		}
+		n++
+		bad := ""
+		for _, s := range c.Eff.Stores(f) {
+			if s.Path.Kind != core.RootParam || !s.Path.Deref {
+				continue
+			}
+			for _, li := range lists {
+				if s.Path.Index != li {
+					continue
+				}
+				for _, k := range s.Path.Keys {
+					if ownerOf(k) == "Relation" {
+						via := ""
+						if len(s.Via) > 0 {
+							via = " through " + strings.Join(s.Via, " -> ")
+						}
+						bad = fmt.Sprintf("%s writes %s of an element of the caller's relation list%s at %s", f.Name, k, via, c.At(s.Node.Pos()))
+					}
+				}
+			}
+		}
+		subject := f.Name + ": relation list argument"
+		if bad == "" {
+			c.OK("C14/R5", subject, c.At(f.Pos()), "the caller's relation list is only read")
+		} else {
+			c.Violation("C14/R5", subject, c.At(f.Pos()), bad+"; the looked-up component id would be cached in the caller's list and reused for a different world or registration order, where it names another component")
+		}
+	}
+	if n == 0 {
+		c.Undecide("C14/R5", "relation list parameters", "no function takes a list of Relation values")
+	}
+}
+
+// c14r6: typed mappers, filters, queries and observers keep pointers to elements of per-component slices of the
+// storage (`&storage.components[id]`) for their whole life. Such a slice must never be reallocated: it is allocated
+// once with the capacity of the component limit (the number of mask bits, which bounds the number of registered
+// components) and only appended to. Otherwise the stored pointers dangle after the slice grows, and the typed API reads
+// other columns than the ID-based API.
+func c14r6(c *core.Ctx) {
+	m := c.M
+	// slice fields whose element addresses are stored into fields, elements or composite literals
+	pinned := map[string]string{}
+	addrOfElem := func(e ast.Expr) string {
+		u, ok := ast.Unparen(e).(*ast.UnaryExpr)
+		if !ok || u.Op != token.AND {
+			return ""
+		}
+		ix, ok := ast.Unparen(u.X).(*ast.IndexExpr)
+		if !ok {
+			return ""
+		}
+		k := fieldKeyOf(m, ix.X)
+		if k == "" {
+			return ""
+		}
+		if fv := m.FieldByKey(k); fv != nil {
+			if _, isSlice := fv.Type().Underlying().(*types.Slice); isSlice {
+				return k
+			}
+		}
+		return ""
+	}
+	for _, f := range m.AllFuncs() {
+		core.InspectNoLits(f.Body, func(n ast.Node) bool {
+			switch x := n.(type) {
+			case *ast.AssignStmt:
+				if len(x.Lhs) != len(x.Rhs) {
+					return true
+				}
+				for i, l := range x.Lhs {
+					switch ast.Unparen(l).(type) {
+					case *ast.IndexExpr, *ast.SelectorExpr:
+						if k := addrOfElem(x.Rhs[i]); k != "" {
+							pinned[k] = f.Name + " at " + c.At(x.Pos())
+						}
+					}
+				}
+			case *ast.KeyValueExpr:
+				if k := addrOfElem(x.Value); k != "" {
+					pinned[k] = f.Name + " at " + c.At(x.Pos())
+				}
+			}
+			return true
+		})
+	}
+	if len(pinned) == 0 {
+		c.Undecide("C14/R6", "element pointers", "no element address of a slice field is stored in a field, element or literal")
+		return
+	}
+	// the component limit
+	var limit constant.Value
+	if obj, ok := m.Prog.Ecs.Types.Scope().Lookup("maskTotalBits").(*types.Const); ok {
+		limit = obj.Val()
+	}
+	var keys []string
+	for k := range pinned {
+		keys = append(keys, k)
+	}
+	sort.Strings(keys)
+	for _, k := range keys {
+		subject := k + ": element pointers are kept (" + pinned[k] + ")"
+		var allocs []ast.Expr
+		var where []ast.Node
+		for _, f := range m.AllFuncs() {
+			core.InspectNoLits(f.Body, func(n ast.Node) bool {
+				switch x := n.(type) {
+				case *ast.KeyValueExpr:
+					if litFieldKey(m, x) == k {
+						allocs = append(allocs, x.Value)
+						where = append(where, x)
+					}
+				case *ast.AssignStmt:
+					if len(x.Lhs) == len(x.Rhs) {
+						for i, l := range x.Lhs {
+							if fieldKeyOf(m, l) == k {
+								// appends to the slice itself are growth within the capacity, everything else is a (re)allocation
+								if call, ok := ast.Unparen(x.Rhs[i]).(*ast.CallExpr); ok && m.IsBuiltin(call, "append") && len(call.Args) > 0 && fieldKeyOf(m, call.Args[0]) == k {
+									continue
+								}
+								allocs = append(allocs, x.Rhs[i])
+								where = append(where, x)
+							}
+						}
+					}
+				}
+				return true
+			})
+		}
+		if limit == nil {
+			c.Undecide("C14/R6", subject, "the component limit constant was not found")
+			continue
+		}
+		bad := ""
+		for i, a := range allocs {
+			okCap := false
+			for _, e := range exprChainAny(m, a) {
+				if call, ok := ast.Unparen(e).(*ast.CallExpr); ok && m.IsBuiltin(call, "make") && len(call.Args) == 3 {
+					if tv, ok := m.Info.Types[call.Args[2]]; ok && tv.Value != nil && constant.Compare(tv.Value, token.GEQ, limit) {
+						okCap = true
+					}
+				}
+			}
+			if !okCap {
+				bad = fmt.Sprintf("%s is allocated at %s as %s, not with a constant capacity of at least the component limit (%s)", k, c.At(where[i].Pos()), m.ExprString(a), limit.String())
+			}
+		}
+		switch {
+		case len(allocs) == 0:
+			c.Undecide("C14/R6", subject, "no allocation of the slice found")
+		case bad != "":
+			c.Violation("C14/R6", subject, c.At(where[0].Pos()), bad+"; registering more components reallocates it and the element pointers kept by mappers, filters, queries and observers dangle")
+		default:
+			c.OK("C14/R6", subject, c.At(where[0].Pos()), "allocated once with the capacity of the component limit; only appended to")
+		}
+	}
+}
+
+// exprChainAny returns e itself (helper for allocation expressions that need no function context).
+func exprChainAny(m *core.Model, e ast.Expr) []ast.Expr { return []ast.Expr{m.StripConv(e)} }
